@@ -23,6 +23,7 @@ FLOORS["op:derive-extended-class"] = 150
 FLOORS["families_with_limited_array_attributes"] = 300
 FLOORS["forced_moves_of_objects_with_references"] = 100
 FLOORS["refarr_steps"] = 2000
+FLOORS["reference_changed_through_the_xobject"] = 150
 FLOORS["refarr_attribute_checks"] = 5000
 FLOORS["limited_array_attribute_assignments"] = 100
 RULE = ("generated hybrid class families (2-3 levels: scalars, strings, numeric arrays of any shape, nested hybrids, "
@@ -440,7 +441,28 @@ def _step(w, rng, vg, op, tracked, envs, specs, outer, new_obj, hist, viol):
         X = rng.choice(cand) if cand and rng.random() < 0.5 else new_obj(sub, t.env, buf=obj._buffer)
         setattr(obj, pn, X.obj)
         X.referenced = True
-        if rng.random() < 0.5:
+        r_ = rng.random()
+        if r_ < 0.25:
+            # the reference is changed at the level of the buffer data (what a kernel or a direct write through the
+            # xobject does); only what happens when X is assigned AGAIN is judged: the buffer must then refer to X
+            other = None
+            if rng.random() < 0.5:
+                setattr(obj._xobject, xn, None)
+                mid = "null written through the xobject"
+            else:
+                other = new_obj(sub, t.env, buf=obj._buffer)
+                setattr(obj._xobject, xn, other.obj._xobject)
+                other.referenced = True
+                mid = f"#{other.i} written through the xobject"
+            w.count("reference_changed_through_the_xobject")
+            setattr(obj, pn, X.obj)
+            _set_model(t, xp, xn, X.i)
+            xr = getattr(obj._xobject, xn)
+            if xr is None or int(xr._offset) != int(X.obj._xobject._offset):
+                viol("reference-in-buffer-does-not-follow-reassignment", f"{pn}: X, {mid}, X again -> buffer refers to {xr!r}")
+            hist.append([op, f"#{t.i}." + ".".join(pp + [pn]), f"#{X.i}, {mid}, #{X.i}"])
+            return True
+        if r_ < 0.6:
             setattr(obj, pn, None)
             mid = "None"
         else:
